@@ -242,6 +242,69 @@ def classifier(c):
         ext.pop("register_load_state_dict_post_hook", None)
 
 
+
+@contract(P, "MaxRateClassifier[inference after load]", [(CL, "MaxRateClassifier.__init__"), (CL, "MaxRateClassifier.rates@setter"), (CL, "MaxRateClassifier.regress"), (CL, "MaxRateClassifier.assignments"), (CL, "MaxRateClassifier.proportions"), (CL, "MaxRateClassifier.occurrences")], min_obligations=2)
+def classifier_inference_after_load(c):
+    """restore into a target in an ARBITRARY PRIOR STATE: a classifier that has already run inference (with its old rates,
+    proportional or not) and is then loaded with new rates infers exactly as a function of the loaded rates - nothing
+    computed from the old rates survives the load.  normalize / argmax / bincount / one_hot / mm are uninterpreted."""
+    it = c.interp
+    hooks = []
+    from pyvc import models as M
+    from pyvc.interp import ExtMethod
+
+    ext = M._EXT_TABLES["nn.Module"]
+    ext["register_load_state_dict_post_hook"] = ExtMethod(lambda itp, self, hook: hooks.append(hook), "register_load_state_dict_post_hook")
+    R = z3.RealSort()
+    NRM, AMX, BIN = z3.Function("normalize_l1", R, R), z3.Function("argmax", R, z3.IntSort()), z3.Function("bincount", z3.IntSort(), z3.IntSort())
+    OH, MM = z3.Function("one_hot", z3.IntSort(), R), z3.Function("mm", R, R, R)
+    it.F_ns._table["normalize"] = Model(lambda itp, v, p=2.0, dim=None, **k: T(NRM(v.f), "float", None, None, v.eshape), "F.normalize")
+    it.F_ns._table["one_hot"] = Model(lambda itp, v, n=-1: T(OH(v.f), "float", None, None, v.eshape), "F.one_hot")
+    it.torch_ns._table["argmax"] = Model(lambda itp, v, dim=None: T(AMX(v.f), "int", None, None, v.eshape), "torch.argmax")
+    it.torch_ns._table["bincount"] = Model(lambda itp, v, w=None, minlength=0: T(BIN(v.f), "int", None, None, tz.Shape((minlength,))), "torch.bincount")
+    it.torch_ns._table["mm"] = Model(lambda itp, a, b: T(MM(a.f, b.f), "float", None, None, a.eshape), "torch.mm")
+    saved_rearrange = it.namespaces["einops"]._table["rearrange"]
+    it.namespaces["einops"]._table["rearrange"] = lambda x, pat, **k: x
+    T.view = lambda self, *a: self
+    # division by the class occurrences: total in z3 (a class without neurons divides by zero, which the code turns into 0
+    # with nan_to_num; the clause below speaks about classes that have neurons)
+    T.div = lambda self, o: T(self.f / (z3.ToReal(o.f) if z3.is_int(o.f) else o.f), "float", None, None, self.eshape)
+    try:
+        cv = it.classv(repo.load_module(CL).classes["MaxRateClassifier"])
+        m = c.call(cv, (3,), 4)
+        old = c.pw("old_rates", eshape=tz.Shape((3, 4)))
+        m.fields["rates_"].data = old
+        if hooks:
+            c.call(hooks[0], m, None)
+        x = c.pw("spike_counts", eshape=tz.Shape((2, 3)))
+        prior = c.choice("inference_before_the_load", ["proportional", "plain", "both", "none"])
+        if prior in ("proportional", "both"):
+            c.call(c.getattr(m, "regress"), x, True)
+        if prior in ("plain", "both"):
+            c.call(c.getattr(m, "regress"), x, False)
+        new = c.pw("loaded_rates", eshape=tz.Shape((3, 4)))
+        m.fields["rates_"].data = new
+        if hooks:
+            c.call(hooks[0], m, None)
+        prop = c.choice("proportional", [True, False])
+        out = c.outcome(c.getattr(m, "regress"), x, prop)
+        c.expect_return(out)
+        pn, an = NRM(new.f), AMX(NRM(new.f))
+        assoc = OH(an) * pn if prop else OH(an)
+        c.ensure("logits_are_a_function_of_the_loaded_rates_only", out.ok and _same_up_to_nan_guard(out.value, MM(x.f, assoc), BIN(an)))
+        c.canary("canary_old_rates_survive", out.ok and _same_up_to_nan_guard(out.value, MM(x.f, OH(AMX(NRM(old.f))) * NRM(old.f) if prop else OH(AMX(NRM(old.f)))), BIN(an)))
+    finally:
+        T.view = lambda self, *a: (_ for _ in ()).throw(__import__("pyvc.sym", fromlist=["Unsupported"]).Unsupported("view"))
+        ext.pop("register_load_state_dict_post_hook", None)
+        it.namespaces["einops"]._table["rearrange"] = saved_rearrange
+        del T.div
+
+
+def _same_up_to_nan_guard(res, numerator, count):
+    """res = numerator / count wherever the count is positive (division by an empty class is replaced by 0 in the code)"""
+    return z3.Implies(count > 0, res.f == numerator / z3.ToReal(count))
+
+
 ASSUMPTIONS = [
     "torch state_dict()/load_state_dict() round-trips parameters, persistent non-None buffers and get/set_extra_state (library axiom); shapes of lazily created storage must match (hypothesis of the statement)",
     "determinism of every step function given its persisted state, configuration and inputs (the step contracts of C03/C04/C07)",
